@@ -1,9 +1,10 @@
-#!/bin/sh
-# run every registered thorough tier once against /repo (sequentially), log exit code and wall time
+#!/bin/bash
+# run registered thorough tiers against /repo (sequentially), append exit code and wall time to /dev/shm/thorough_all.log
+# usage: tools/thorough_all.sh [01 02 ...]
 cd /verif
-log=${1:-/dev/shm/thorough_all.log}
-: > $log
-for i in 01 02 03 04 05 06 07 08 09 10 11 12 13 14 15 16 17 18 19 20; do
+log=/dev/shm/thorough_all.log
+ids=${@:-01 02 03 04 05 06 07 08 09 10 11 12 13 14 15 16 17 18 19 20}
+for i in $ids; do
   t0=$(date +%s)
   ./check C$i thorough > /dev/shm/thorough_C$i.out 2>&1
   rc=$?
